@@ -49,7 +49,7 @@ import itertools, json, os, shutil
 
 RULE = ("(a) a genotype triple; (b) a family genotype table; (c) a pedigree DP instance (member order, trios, per-column "
         "genotypes, reads, recombination costs); (d) a CLI run reduced to (family, per-variant input genotypes, traced "
-        "reads/transmission/super-reads, output phase). Non-trivial: (b) the table has a retained and a discarded variant; "
+        "reads/transmission/super-reads, output phase; the input VCF unphased or already phased in all/some members). Non-trivial: (b) the table has a retained and a discarded variant; "
         "(c) at least one column with a heterozygous child, and either reads or a homozygous parent; (d) at least one child "
         "call phased; (c') a likelihood DP instance in which a genotype changes or a trio column carries a tie flag; (e) a "
         "cost-map input whose result has >= 2 different costs; (d') a --distrust-genotypes run with a changed genotype and a "
@@ -748,11 +748,36 @@ def do_asphred(ctx, batch, case):
 # pipeline
 # ------------------------------------------------------------------------------------------------
 
-def gen_cli_case(rng, mode):
+def gen_cli_case(rng, mode, prephase=None):
+    """prephase: None = the input VCF already carries phase information in about a third of the cases; True = always"""
     import random
-    from harness.gen import c05_ped as G
     sub = rng.randrange(1 << 30)
-    r = random.Random(sub)
+    case = gen_cli_case_unphased(random.Random(sub), mode, sub)
+    # drawn from a generator of its own: the unphased stream is the same as it was before this was added
+    r2 = random.Random(sub ^ 0x5A5A5A5)
+    if prephase or (prephase is None and r2.random() < 0.35):
+        prephase_input(r2, case)
+    return case
+
+
+def prephase_input(r, case):
+    """The input VCF of a `--ped` run is itself a phased VCF (output of an earlier run / of another tool): phase in all or
+    some members, in either encoding, on every record kind; sample columns in random order; and a missing genotype at
+    the first, a middle and the last column of the family.  What the oracle demands does not change: it reads the
+    OUTPUT's phase and the (unordered) input genotypes."""
+    from harness.gen import c05_ped as G
+    data = case["data"]
+    if r.random() < 0.8:
+        r.shuffle(data["samples"])
+    # whatever the reads say, the genotype table decides which records may be phased; likelihood cases keep their PL rows
+    forced = G.force_missing_by_column(r, data) if not data.get("pl") else {}
+    ip = G.add_input_phase(r, data, who=r.choice(["all", "all", "some"]), enc=r.choice(["PS", "PS", "PS", "HP", "HP", "GT", "mixed"]),
+                           frac=r.choice([1.0, 0.9, 0.6]))
+    ip["forced_missing"] = {str(k): v for k, v in forced.items()}
+
+
+def gen_cli_case_unphased(r, mode, sub):
+    from harness.gen import c05_ped as G
     n_children = 2 if "quartet" in mode else 1
     recomb = mode.split("-")[1] == "recomb"
     if mode.split("-")[1] == "lik":
@@ -981,6 +1006,7 @@ def check_cli(ctx, batch, case, samples, recs, inrecs, trace, rows=None):
     pos_list = [r["pos"] for r in inrecs]
     phase = {s: G.decode_calls(recs, sidx[s]) for s in samples}
     n_child_phased = 0
+    input_phase_dists(ctx, data, samples, inrecs, sidx, in_gt)
     for t in trace:
         fam = t["family"]
         if len(fam) < 2:
@@ -1101,6 +1127,29 @@ def check_cli(ctx, batch, case, samples, recs, inrecs, trace, rows=None):
     if len(ctx.samples) < 4:
         ctx.sample({"cli_args": case["args"], "mode": case["mode"], "samples": samples, "trios": data["trios"],
                     "gt": {s: data["gt"][s][:8] for s in data["samples"]}})
+
+
+def input_phase_dists(ctx, data, samples, inrecs, sidx, in_gt):
+    """what the INPUT carried (read back from the input file, not from the generator's plan): which members came phased,
+    on which record kinds, and where in the column order the member with the missing genotype stands relative to members
+    that are phased in that record"""
+    from harness.gen import c05_ped as G
+    ip = data.get("inphase")
+    ctx.dist("cli_input_phase", "-" if not ip else f"{ip['enc']}/{'all' if len(ip['who']) == len(samples) else 'some'}")
+    if not ip:
+        return
+    inph = {s: G.decode_calls(inrecs, sidx[s]) for s in samples}
+    fam = [s for s in samples if any(s in t for t in data["trios"])]
+    for vi, r in enumerate(inrecs):
+        miss = [k for k, s in enumerate(fam) if in_gt[s][vi] == []]
+        ph = [k for k, s in enumerate(fam) if r["pos"] in inph[s]]
+        conflict = not miss and any(not feasible_child(in_gt[f][vi], in_gt[m][vi], in_gt[c][vi]) for f, m, c in data["trios"])
+        if ph:
+            ctx.dist("cli_input_phased_record_kind", "missing" if miss else "conflict" if conflict else "ok")
+        for k in miss:
+            where = "first" if k == 0 else "last" if k == len(fam) - 1 else "middle"
+            ctx.dist("cli_input_missing_column(position;phased members before/after)",
+                     f"{where};{'b' if any(x < k for x in ph) else '-'}{'a' if any(x > k for x in ph) else '-'}")
 
 
 def option_value(args, name, default, conv=float):
@@ -1338,6 +1387,13 @@ def run(ctx):
         modes = modes * 10
     for m in modes * ctx.scale:
         run_cli(ctx, batch, gen_cli_case(rng, m))
+    # the input VCF is already phased (all / some members, PS / HP / bare phased GT, every record kind)
+    pre = ["trio-noreads", "quartet-sparse", "trio-deep", "quartet-noreads", "trio-sparse", "quartet-deep", "trio-sparse-nogenetic",
+           "quartet-lik"]
+    if not ctx.quick:
+        pre = pre * 8
+    for m in pre * ctx.scale:
+        run_cli(ctx, batch, gen_cli_case(rng, m, prephase=True))
     batch.flush()
     G.assert_overlay_in_use(ctx.overlay)
     if not ctx.quick:
